@@ -2,6 +2,7 @@ import Proofs.ScsvFaults
 import Proofs.ScsvTerse
 import Proofs.ScsvErrors
 import Proofs.YamlScalar
+import Proofs.ScsvDomain
 /-! # C16 — SCSV save/read round trip is lossless; invalid schemas and data are refused
 
 Theorems about `Scsv.save` / `Scsv.read` (the model of `pydrex.io.save_scsv` / `read_scsv` at /repo
@@ -121,6 +122,14 @@ theorem save_read_roundtrip (E : FloatExt) (hE : FloatSpec E) (s : Schema) (data
   cases heq
   obtain ⟨txt, h1, h2⟩ := read_save E hE dc m fs data n hv hok hn hrect hcols hblank
   exact ⟨txt, fs, rfl, h1, h2⟩
+
+/-- **the domain of the theorem is executable**: `domainFailures` (run by the driver on every generated
+case) lists the violated hypotheses; an empty list implies the round trip. -/
+theorem domain_checked_roundtrip (E : FloatExt) (hE : FloatSpec E) (s : Schema) (data : List (List Val))
+    (h : domainFailures E s data = []) :
+    ∃ txt fs, s.fields = some fs ∧ save E s data = .ok txt ∧
+      read E txt = .ok (fieldNames fs, expectedTable E fs data) :=
+  Scsv.domain_checked_roundtrip E hE s data h
 
 /-! ## single faults (as the code is written) -/
 
